@@ -19,12 +19,13 @@ Caches == {"none", "zero", "one", "many"}
 Levies == {"none", "space-time", "davie", "foster", "bogus"}
 SizeSrc == {"size", "W", "WH", "size+W", "mismatch", "nothing", "intW"}
 Shapes == {"scalar", "batch", "matrix"}
+Ends == {"on", "off"}                          \* t0, t1 multiples of the tolerance, or not (then they straddle zero too)
 
 VARIABLES cfg, stage, outcome
 vars == <<cfg, stage, outcome>>
 
 Configs == [order : TimeOrder, tol : Tols, dt : Dts, cache : Caches, levy : Levies, halfway : BOOLEAN,
-            src : SizeSrc, shape : Shapes]
+            src : SizeSrc, shape : Shapes, ends : Ends]
 
 \* ---- declarative: what the docstring allows
 Documented(c) ==
@@ -33,6 +34,7 @@ Documented(c) ==
   /\ c.tol # "neg"                                              \* "Must be non-negative"
   /\ c.src \in {"size", "W", "WH", "size+W"}                    \* size given, or implied consistently by W / H
   /\ c.levy # "bogus"
+  \* (c.ends is unconstrained: the end points need not lie on the tolerance grid)
 
 \* ---- operational: checks in source order
 Init == cfg \in Configs /\ stage = "order" /\ outcome = "running"
